@@ -16,19 +16,25 @@
      _Bool/float/double/_Complex (valid or not; `signed` not combined with what makes cparser drop
      it), and the declarator is built from '*', const/volatile, arbitrarily nested grouping
      parentheses around declarators that start with '*', and array suffixes [ ], [decimal],
-     [octal], [hexadecimal] (value <= SSIZE_MAX); any white space that separates the tokens; any
-     declaration context; any output buffer that is large enough.
+     [octal], [hexadecimal] (value <= SSIZE_MAX), [NAME] where NAME is an integer constant of the
+     declaration context (macro or enumerator, 0 <= value <= SSIZE_MAX); any white space that
+     separates the tokens; any declaration context whose table of globals is sorted; any output
+     buffer that is large enough.
    SIDE THEOREMS (all strings): C07_no_fault, C07_result_index_in_range,
      C07_next_token_stops_at_terminator, C07_lookahead_stops_at_terminator.
+   PROVED (C07_agree_names_partial): the same declarators over a base type named through the
+     declaration context: declared typedef names, standard *_t names, struct/union tags (declared,
+     right or wrong kind), enum tags (declared or not), in any well-formed context.
    MISSING from the full statement: function suffixes (parameters, void, ..., __cdecl/__stdcall),
-     typedef/struct/union/enum/standard names, named array lengths, declarator names, qualifiers
+     the common types bool/FILE, undeclared struct/union tags, array lengths named by negative or
+     undeclared constants (both reject), declarator names, qualifiers
      after the specifiers but before the first '*' are covered only when written in the
      declarator header, arrays longer than SSIZE_MAX (both reject), nesting deeper than 999.
      These are covered by the correspondence runs only. *)
 From Coq Require Import List Arith NArith ZArith Lia Bool String.
 Import ListNotations.
-From Cffi Require Import C25.Model C07.Model C07.Realize C07.PyModel C07.Lexer C07.Tokens C07.Specs
-     C07.SpecsAgree C07.Parse C07.Sequel C07.Sequel2 C07.Agree C07.NoFault C07.NoFault2 C07.NoFault3.
+From Cffi Require Import C25.Model C25.Proofs C07.Model C07.Realize C07.PyModel C07.Lexer C07.Tokens C07.Specs
+     C07.SpecsAgree C07.Parse C07.Sequel C07.Sequel2 C07.Agree C07.Tables C07.Names C07.Agree2 C07.NoFault C07.NoFault2 C07.NoFault3.
 
 (* "any ordering of primitive specifiers": on every list of specifier keywords the C parser
    (c_spec_abs: modifiers loop, base-type switch, _Complex, nothing left over) and the Python
@@ -55,7 +61,8 @@ Print Assumptions C07_integer_literals.
 
 (* what parse_sequel writes for a declarator decodes to the declarator applied to the base type *)
 Theorem C07_declarator_opcodes : forall osz cx g input toks, lexed input toks ->
-  forall d, sdecl d -> forall f i o outer,
+  table_ok (map fst (c_globals cx)) ->
+  forall d, sdecl (c_globals cx) d -> forall f i o outer,
   At toks i (sdecl_toks d) -> final_stop (K toks (i + ntoks d)) ->
   (List.length o + nops d <= osz)%nat -> (ntoks d + 1 < f)%nat ->
   exists o' idx,
@@ -63,19 +70,36 @@ Theorem C07_declarator_opcodes : forall osz cx g input toks, lexed input toks ->
     List.length o' = (List.length o + nops d)%nat /\
     (forall j, (j < List.length o)%nat -> nth_error o' j = nth_error o j) /\
     (forall out'', agree out'' o' (List.length o) (List.length o') ->
-       forall m n, decodes g n out'' outer m -> decodes g (n + cost d) out'' idx (apply_decl d m)).
+       forall m n, decodes g n out'' outer m -> decodes g (n + cost d) out'' idx (apply_decl (c_globals cx) d m)).
 Proof. exact sequel_run. Qed.
 Print Assumptions C07_declarator_opcodes.
 
 (* the agreement theorem for the sub-grammar described above *)
 Theorem C07_agree_partial : forall (g : genv) (osz : nat) q1 ws d wtoks trailing,
-  ws <> [] -> sign_ok ws = true -> sdecl d ->
+  ws <> [] -> sign_ok ws = true -> table_ok (map fst (g_globals g)) -> sdecl (g_globals g) d ->
   map snd wtoks = te_tokens (simple_te q1 ws d) ->
   sep_ok [] wtoks = true -> is_ws trailing = true ->
   (S (nops d) <= osz)%nat -> (cost d < 999)%nat ->
   c_typeof osz g (spell wtoks trailing) = denote g (simple_te q1 ws d).
 Proof. exact agree_partial. Qed.
 Print Assumptions C07_agree_partial.
+
+(* the same with a base type named through the declaration context g:
+     NTypedef n  a declared typedef name (its meaning is looked up by both parsers),
+     NStd n      a standard name (wchar_t, intN_t, size_t, ...) that is not a declared typedef,
+     NTag k n    struct / union n declared (with the right or the wrong kind: both reject the
+                 wrong kind), enum n declared or not (both reject an undeclared enum),
+   over any well-formed context (the four name tables sorted without NULs, as the code generator
+   emits them).  `r` says what the base is: Some (opcode, type) or None (rejected). *)
+Theorem C07_agree_names_partial : forall (g : genv) (osz : nat) q1 b r d wtoks trailing,
+  wf_genv g -> ident_ok (nbase_name b) -> base_ok g b r -> sdecl (g_globals g) d ->
+  map snd wtoks = te_tokens (named_te q1 b d) ->
+  sep_ok [] wtoks = true -> is_ws trailing = true ->
+  (S (nops d) <= osz)%nat -> (cost d < 999)%nat ->
+  c_typeof osz g (spell wtoks trailing) = denote g (named_te q1 b d) /\
+  denote_mty g (named_te q1 b d) = option_map (fun om => apply_decl (g_globals g) d (snd om)) r.
+Proof. exact agree_names_partial. Qed.
+Print Assumptions C07_agree_names_partial.
 
 (* ---------------------------------------------------------------- memory safety (side theorems, used by C30) *)
 (* Every load tok->output[i] and every store tok->output[i] = .. / *p_current = .. of the model goes
@@ -122,37 +146,44 @@ Definition disagree (t : tyexpr) : Prop :=
 Theorem C07_qualifier_between_specifiers_refuted :
   disagree (TE [SM Mlong; SQ Qconst; SB Bint] (D [] None None [] [])).
 Proof. vm_compute. discriminate. Qed.
+Print Assumptions C07_qualifier_between_specifiers_refuted.
 
 (* 'int (( * ))': grouping parentheses directly inside grouping parentheses *)
 Theorem C07_nested_grouping_parens_refuted :
   disagree (TE [SB Bint] (D [] None (Some (None, D [] None (Some (None, D [HStar] None None [] [])) [] [])) [] [])).
 Proof. vm_compute. discriminate. Qed.
+Print Assumptions C07_nested_grouping_parens_refuted.
 
 (* 'signed double' *)
 Theorem C07_signed_ignored_refuted :
   disagree (TE [SM Msigned; SB Bdouble] (D [] None None [] [])).
 Proof. vm_compute. discriminate. Qed.
+Print Assumptions C07_signed_ignored_refuted.
 
 (* 'const *': no type specifier at all *)
 Theorem C07_implicit_int_refuted :
   disagree (TE [SQ Qconst] (D [HStar] None None [] [])).
 Proof. vm_compute. discriminate. Qed.
+Print Assumptions C07_implicit_int_refuted.
 
 (* 'int( * )(...)' *)
 Theorem C07_ellipsis_only_refuted :
   disagree (TE [SB Bint] (D [] None (Some (None, D [HStar] None None [] [])) [F [] false true] [])).
 Proof. vm_compute. discriminate. Qed.
+Print Assumptions C07_ellipsis_only_refuted.
 
 (* 'int( * )(const void)' *)
 Theorem C07_sole_void_param_refuted :
   disagree (TE [SB Bint] (D [] None (Some (None, D [HStar] None None [] []))
                            [F [TE [SQ Qconst; SB Bvoid] (D [] None None [] [])] false false] [])).
 Proof. vm_compute. discriminate. Qed.
+Print Assumptions C07_sole_void_param_refuted.
 
 (* 'int __stdcall' *)
 Theorem C07_stray_abi_refuted :
   disagree (TE [SB Bint] (D [HAbi true] None None [] [])).
 Proof. vm_compute. discriminate. Qed.
+Print Assumptions C07_stray_abi_refuted.
 
 (* 'void( * )(int(const int))': a parameter list starting with a qualifier where a grouping could stand *)
 Theorem C07_qualifier_first_param_refuted :
@@ -161,6 +192,7 @@ Theorem C07_qualifier_first_param_refuted :
                                    [F [TE [SQ Qconst; SB Bint] (D [] None None [] [])] false false] [])]
                                false false] [])).
 Proof. vm_compute. discriminate. Qed.
+Print Assumptions C07_qualifier_first_param_refuted.
 
 (* ---------------------------------------------------------------- non-vacuity *)
 (* "  const unsigned long int*const( *volatile[0x10])[3] ": the hypotheses of C07_agree_partial hold and
@@ -172,7 +204,7 @@ Example C07_example :
              [] [ALLit (s2l "3")] in
   let t := simple_te q1 ws d in
   let wtoks := attach [] [[32%N; 32%N]; []; []; []; []; []; []; []; []; []; []; []; [32%N]] (te_tokens t) in
-  (ws <> [] /\ sign_ok ws = true /\ sdecl d /\ map snd wtoks = te_tokens t /\ sep_ok [] wtoks = true) /\
+  (ws <> [] /\ sign_ok ws = true /\ sdecl [] d /\ map snd wtoks = te_tokens t /\ sep_ok [] wtoks = true) /\
   c_typeof 1200 nog (spell wtoks []) =
     Some (CArr (CPtr (CArr (CPtr (CPrim 10)) (Some 3%Z))) (Some 16%Z)) /\
   denote nog t = Some (CArr (CPtr (CArr (CPtr (CPrim 10)) (Some 3%Z))) (Some 16%Z)).
@@ -182,4 +214,38 @@ Proof.
   apply SD1; try reflexivity.
   - repeat constructor; vm_compute; congruence.
   - apply SD0; [reflexivity|]. repeat constructor; vm_compute; congruence.
+Qed.
+
+(* " const t *[3][N]" and "union s" in a context with `typedef int *t;`, `struct s` (8 bytes) and
+   `#define N 5` *)
+Definition ex_genv : genv :=
+  mkGenv [(s2l "t", MPtr (MPrim 7))] [(s2l "s", false, MAgg AStruct (s2l "struct s") (Some 8%Z))] []
+         [(s2l "N", GInt false 0 5)].
+
+Example C07_names_example :
+  wf_genv ex_genv /\
+  (let b := NTypedef (s2l "t") in
+   let d := D [HStar] None None [] [ALLit (s2l "3"); ALName (s2l "N")] in
+   ident_ok (nbase_name b) /\ base_ok ex_genv b (Some (OP OP_TYPENAME 0, MPtr (MPrim 7))) /\
+   sdecl (g_globals ex_genv) d /\
+   c_typeof 1200 ex_genv (s2l " const t *[3][N]") =
+     Some (CArr (CArr (CPtr (CPtr (CPrim 7))) (Some 5%Z)) (Some 3%Z)) /\
+   denote ex_genv (named_te [Qconst] b d) =
+     Some (CArr (CArr (CPtr (CPtr (CPrim 7))) (Some 5%Z)) (Some 3%Z))) /\
+  (let b := NTag TKunion (s2l "s") in
+   base_ok ex_genv b None /\ c_typeof 1200 ex_genv (s2l "union s") = None).
+Proof.
+  assert (Hs1 : forall x : cstr, sorted [x]) by (intros x i j H; cbn in H; lia).
+  split; [|split].
+  - split; [|split; [|split]]; (split; [cbn [map g_typedefs g_structs g_enums g_globals ex_genv fst] | first [apply Hs1 | intros i j H; cbn in H; lia]]).
+    + constructor; [|constructor]. constructor; [discriminate | constructor].
+    + constructor; [|constructor]. constructor; [discriminate | constructor].
+    + constructor.
+    + constructor; [|constructor]. constructor; [discriminate | constructor].
+  - cbv zeta. split; [split; [cbn; auto | reflexivity]|].
+    split; [apply (BO_typedef ex_genv (s2l "t") 0 (MPtr (MPrim 7))); reflexivity|].
+    split; [apply SD0; [reflexivity | repeat constructor; vm_compute; congruence]|].
+    split; vm_compute; reflexivity.
+  - cbv zeta. split; [|vm_compute; reflexivity].
+    exact (BO_su ex_genv TKunion (s2l "s") 0 false _ ltac:(discriminate) eq_refl).
 Qed.
